@@ -27,6 +27,7 @@ SCALAR_KINDS = ["u8", "u64", "i32", "usize", "bool"]
 BASE_KINDS = ["u64", "s3", "slice", "cb", "ptr_const", "ptr_mut", "bool"]
 ALL_BASE_KINDS = ["u8", "u64", "i32", "usize", "bool", "s3", "slice", "cb", "ptr_const", "ptr_mut"]
 EXT_KINDS = ["cb_u64", "fnptr"]
+MORE_CB_KINDS = ["cb_p2", "cb_p3"]  # OpaqueCallback<Point2>, OpaqueCallback<Addr>: further struct element types
 RECVS = ["ref", "mut", "own"]
 RETS = ["void", "u64", "bool", "s3", "self"]
 CONTS = ["Box", "Mut", "Ref"]
@@ -90,6 +91,12 @@ def single(m, cont="Box", ctx="arc", form="obj", extra=()):
     if form == "gopt":
         b = trait("Beta", [meth("beta_ping", "ref", [], "void")])
         return model([a, b], [{"name": "Bundle", "mandatory": ["Beta"], "optional": ["Alpha"]}], [grp("Bundle", cont, ctx)] + list(extra))
+    if form in ("gfirst", "gmid", "glast"):
+        # 3-trait group `Trio`; vtable order is mandatory (sorted) then optional (sorted): Alpha sits first / in the middle / last
+        lead = trait("Aaa", [meth("aaa_ping", "ref", ["u64"], "u64")])
+        tail = trait("Zed", [meth("zed_sum", "ref", ["u64", "u64"], "u64")])
+        mand, opt = {"gfirst": (["Alpha"], ["Aaa", "Zed"]), "gmid": (["Aaa", "Alpha"], ["Zed"]), "glast": (["Aaa", "Zed"], ["Alpha"])}[form]
+        return model([a, lead, tail], [{"name": "Trio", "mandatory": mand, "optional": opt}], [grp("Trio", cont, ctx)] + list(extra))
     raise ValueError(form)
 
 
@@ -119,6 +126,7 @@ def shape(case):
 LONG_ARGLISTS = [
     ["u64", "s3", "slice"], ["cb", "ptr_mut", "bool"], ["u64", "u64", "u64"], ["ptr_const", "u8", "usize"],
     ["u64", "s3", "slice", "ptr_const"], ["cb", "ptr_mut", "bool", "i32"], ["u64", "u64", "u64", "u64"], ["slice", "slice", "s3", "s3"],
+    ["cb", "cb_p2"], ["cb_p3", "cb", "cb_p2"],
 ]
 
 
@@ -136,7 +144,7 @@ def c17_quick_models():
     """One-factor-at-a-time slice around baseline(); every entry is (factor label, model)."""
     out = [("baseline", baseline())]
     # F1 argument lists: every kind alone, 0..4 arguments, mixed and same-typed long lists
-    for k in ALL_BASE_KINDS + EXT_KINDS:
+    for k in ALL_BASE_KINDS + EXT_KINDS + MORE_CB_KINDS:
         out.append(("arg:" + k, single([meth("alpha_call", "ref", [k], "u64")])))
     for al in [[]] + LONG_ARGLISTS:
         out.append(("args:%d" % len(al), single([meth("alpha_call", "mut", al, "u64")])))
@@ -184,6 +192,18 @@ def c17_quick_models():
     for form in ("obj", "gmand", "gopt"):
         for c, x in (("Box", "arc"), ("Box", "none"), ("Mut", "arc")):
             out.append(("selfret:%s:%s:%s" % (form, c, x), single(cl, c, x, form)))
+    # F8b Self-returning entry in the first / middle / last vtable of a 3-trait group (the returned object must carry ALL vtables)
+    for form in ("gfirst", "gmid", "glast"):
+        for c, x in (("Box", "arc"), ("Mut", "arc")):
+            out.append(("selfret:%s:%s:%s" % (form, c, x), single(cl, c, x, form)))
+    two = [trait("Alpha", [meth("alpha_get", "ref", ["u64"], "u64"), meth("alpha_dup", "ref", [], "self")]),
+           trait("Beta", [meth("beta_get", "ref", ["s3"], "u64"), meth("beta_dup", "ref", [], "self")]),
+           trait("Gamma", [meth("gamma_get", "mut", ["slice"], "u64")])]
+    out.append(("selfret:trio:two_dups", model(two, [{"name": "Trio", "mandatory": ["Alpha"], "optional": ["Beta", "Gamma"]}], [grp("Trio"), obj("Alpha")])))
+    # F1b several distinct callback element types in one header
+    out.append(("cbtypes:2:one_method", single([meth("alpha_each", "ref", ["cb", "cb_p2"], "void")])))
+    out.append(("cbtypes:3:one_method", single([meth("alpha_each", "ref", ["cb", "cb_p2", "cb_p3"], "u64")])))
+    out.append(("cbtypes:3:methods", single([meth("alpha_a", "ref", ["cb_p3"], "void"), meth("alpha_b", "mut", ["cb"], "void"), meth("alpha_c", "ref", ["u64", "cb_p2"], "u64")])))
     # F9 header-level switches
     b = baseline()
     for k, v in (("root_style", "ptr"), ("cpp_compat", False), ("guard", "DEMO_BINDINGS_H")):
@@ -244,7 +264,7 @@ def c17_cases(tier):
     packs = [sigs[i:i + 5] for i in range(0, len(sigs), 5)]
     for pi, pack in enumerate(packs):
         ms = [meth("m%d_%s" % (j, r), r, al, t) for j, (r, t, al) in enumerate(pack)]
-        for c, x, form in itertools.product(CONTS, CTXS, ("obj", "gmand", "gopt")):
+        for c, x, form in itertools.product(CONTS, CTXS, ("obj", "gmand", "gopt", "gmid")):
             for lang in ("c", "cpp"):
                 m = single(ms, c, x, form)
                 if needs_filler(m):
@@ -323,6 +343,25 @@ def c18_cases(tier):
             for fo in ([[]] if quick else [[], ALL_FOREIGN]):
                 for lang in langs:
                     add("contexts", "ctx%d:%s" % (len(ctxs), "+".join(w) if w else "plain"), wrapped_model(ctxs, w, cont, fo), lang)
+    # S2b 1..3 distinct callback element types (struct items) in one header, in one method / spread over traits, with/without contexts
+    cbsets = [["cb"], ["cb", "cb_p2"], ["cb_p2", "cb_p3"], ["cb", "cb_p2", "cb_p3"], ["cb_p3", "cb_p2", "cb"]]
+    for ks in cbsets:
+        one = model([trait("Alpha", [meth("alpha_each", "ref", ks, "u64")])], [], [obj("Alpha")])
+        spread_tr = [trait(n, [meth(n.lower() + "_each", "mut", [k], "void")]) for n, k in zip(TRAIT_NAMES, ks)]
+        spread = model(spread_tr, [{"name": "Bundle", "mandatory": [spread_tr[0]["name"]], "optional": [t["name"] for t in spread_tr[1:]]}],
+                       [obj(spread_tr[0]["name"]), grp("Bundle")])
+        shapes_cb = [("one", one), ("spread", spread)]
+        if not quick:
+            both = copy.deepcopy(spread)
+            both["instances"] += [grp("Bundle", "Mut", "none")]
+            shapes_cb.append(("spread2", both))
+            wm = wrapped_model(["arc", "MyCtx"], ["borrow", "into", "get_mut"])
+            wm["traits"].append(trait("Gamma", [meth("gamma_each", "ref", ks, "void")]))
+            wm["instances"].append(obj("Gamma"))
+            shapes_cb.append(("wrapped", wm))
+        for sn, m in shapes_cb:
+            for lang in langs:
+                add("callbacks", "cbtypes:%d:%s" % (len(ks), sn), m, lang)
     # S3 foreign declarations: every subset (thorough) / none, each alone, all (quick)
     subsets = foreign_subsets() if not quick else [[]] + [[k] for k in ALL_FOREIGN] + [ALL_FOREIGN]
     shapes = [(["arc"], None), (["arc", "MyCtx"], ["borrow", "into", "get_mut"])] if quick else \
